@@ -11,7 +11,16 @@ RULE = (
     "reference parser accepts the RQ (1..128 contexts, distinct odd IDs, one abstract and >=1 transfer syntax each, exactly one application context "
     "and one user-information item with exactly one maximum-length and one implementation-class-UID sub-item, legal AE titles and UIDs), and the AC "
     "(one result item per proposed context ID, a transfer syntax on every accepted item). Configurations the API rejects are counted and skipped. "
-    "Non-trivial = >16 contexts or >=2 kinds of negotiation item."
+    "Families (class fam:*): base (random configuration), titles / odd (random configuration with an edge title / UID / version name), big (17..130 "
+    "contexts), preset-ids (otherwise known-good configuration whose contexts= argument of associate() carries PresentationContext.context_id values "
+    "set beforehand, as contexts taken from an earlier association do: None / odd 1..255 / gaps / duplicates / all equal / high values; even and "
+    "out-of-range values only to count the setter's rejection), title-focus (ENUMERATED, not sampled: known-good minimal configuration with one AE "
+    "title from a pool - each of the 32 C0 control characters, DEL and backslash at the start, in the middle and at the end of a title, leading / "
+    "trailing / only spaces, empty, 15/16/17 characters with and without padding, non-ASCII, all legal punctuation - through every API path that takes "
+    "a title that goes on the wire: AE(ae_title=), the AE.ae_title setter, associate(ae_title=), each as str and as the deprecated bytes form; the "
+    "quick tier runs the three str paths in full and one bytes path per pool entry), version-focus (enumerated: the same kinds of value for "
+    "implementation_version_name). Every family has its own Hypothesis seed (check aliases wire-*). "
+    "Non-trivial = >16 contexts, or >=2 kinds of negotiation item, or a preset-ids case with >=1 pre-set ID / a title-focus or version-focus case whose request reached the wire."
 )
 ASSUMPTIONS = ["engines/ps38ref.ref_parse(strict=True) transcribes the PS3.8 cardinalities and value-representation rules", "E4 substitution table"]
 SHARDS = {"quick": 1, "thorough": 16}
@@ -21,10 +30,13 @@ def check_wire(ctx, case):
     out = N.run(case)
     kinds = {e[0] for e in case.get("ext", [])} | ({"role"} if case.get("roles") else set())
     n = len(case["requested"])
+    fam = case.get("family", "base")
+    famcls = ["fam:" + fam] + [f"{fam}:{l}" for l in case.get("labels", ())]
     if out.get("api_error"):
-        ctx.note(case, nontrivial=False, classes=["api-rejected:" + out["api_error"][0] + ":" + out["api_error"][1]])
+        ctx.note(case, nontrivial=False, classes=["api-rejected:" + out["api_error"][0] + ":" + out["api_error"][1], f"{fam}:api-rejected"] + famcls)
         return
-    ctx.note(case, nontrivial=n > 16 or len(kinds) >= 2, classes=["established" if out["established"] else "not-established", f"n={'>16' if n > 16 else n if n < 5 else '5-16'}"] + sorted("ext:" + k for k in kinds))
+    focus = (fam in ("title-focus", "version-focus") or (fam == "preset-ids" and any(i is not None for i in case.get("preset_ids") or ()))) and out["rq_bytes"] is not None
+    ctx.note(case, nontrivial=n > 16 or len(kinds) >= 2 or focus, classes=["established" if out["established"] else "not-established", f"n={'>16' if n > 16 else n if n < 5 else '5-16'}"] + sorted("ext:" + k for k in kinds) + famcls + ([f"{fam}:on-wire"] if fam in ("title-focus", "version-focus", "preset-ids") else []))
     rqb = out["rq_bytes"]
     if rqb is None:
         ctx.cls("no-rq-on-wire")
@@ -63,7 +75,69 @@ def check_wire(ctx, case):
             ctx.fail("rj-nonconformant", str(e).split(":")[0], f"A-ASSOCIATE-RJ sent is not conformant: {e}; {rep.hex()}")
 
 
-CHECKS = {"wire": check_wire}
+# one function; the aliases only give every generator family its own Hypothesis seed
+CHECKS = {"wire": check_wire, "wire-preset": check_wire, "wire-titles": check_wire, "wire-big": check_wire, "wire-odd": check_wire}
+
+VERIFICATION, IMPLICIT = "1.2.840.10008.1.1", "1.2.840.10008.1.2"
+
+
+def minimal():
+    """a configuration that is known to be accepted and established"""
+    return {"rq_title": "SCU", "ac_title": "ANY-SCP", "called": None, "max_pdu": 16382, "impl_uid": None, "impl_version": None,
+            "requested": [[VERIFICATION, [IMPLICIT]]], "roles": {}, "ext": [], "supported": [[VERIFICATION, [IMPLICIT], None, None]],
+            "acc_handlers": {"sopext": False, "userid": None, "async": False}}
+
+
+# characters the AE value representation excludes: C0 controls, DEL, backslash
+SPECIAL = [chr(c) for c in range(0x20)] + ["\x7f", "\\"]
+PLAIN_TITLES = [
+    ("", "empty"), (" ", "only-spaces"), (" " * 16, "only-spaces"), (" " * 17, "only-spaces"),
+    ("A", "legal"), ("x" * 15, "legal"), ("x" * 16, "len16"), ("x" * 17, "len17"), (" " + "x" * 15, "len16"), ("x" * 15 + " ", "len16"),
+    (" " + "x" * 16, "len17"), ("x" * 16 + " ", "len17"), (" " + "x" * 14 + " ", "len16"), ("  PAD  ", "padded"), (" LEAD", "padded"), ("TRAIL ", "padded"),
+    (" " * 9 + "LEADING", "padded"), ("STORE_SCU" + " " * 7, "padded"), ("STORE_SCU" + " " * 8, "len17"), ("a b", "legal"), ("lower case", "legal"),
+    ("!\"#$%&'()*+,-./", "punctuation"), (":;<=>?@[]^_`{|}~", "punctuation"), ("0123456789", "legal"),
+    ("\u00c4E", "non-ascii"), ("CAF\u00c9", "non-ascii"), ("A\u00a0B", "non-ascii"), ("\u2003X", "non-ascii"), ("\uff21\uff25", "non-ascii"), ("AE\u0085", "non-ascii"), ("AE\u0080X", "non-ascii"),
+]
+TITLE_PATHS = [("rq_title", "ctor"), ("rq_title", "setter"), ("called", "arg"), ("rq_title", "ctor-bytes"), ("rq_title", "setter-bytes"), ("called", "arg-bytes")]
+
+
+def _kind(c):
+    return "DEL" if c == "\x7f" else "backslash" if c == "\\" else "ctrl-ws" if c in "\t\n\v\f\r\x1c\x1d\x1e\x1f" else "ctrl"
+
+
+def title_focus_cases(seed, quick):
+    """Enumeration: pool title x API path, everything else known-good and minimal."""
+    pool = []
+    for c in SPECIAL:
+        pool += [(c + "ECHOSCU", [_kind(c), "pos:start"]), ("ECHO" + c + "SCU", [_kind(c), "pos:middle"]), ("ECHOSCU" + c, [_kind(c), "pos:end"])]
+    pool += [(" " + "\n" + "ECHOSCU", ["ctrl-ws", "pos:after-pad"]), ("ECHOSCU" + "\n" + " ", ["ctrl-ws", "pos:before-pad"]), ("\x7f", ["DEL", "pos:only"]), ("\n", ["ctrl-ws", "pos:only"]),
+             ("\x7f" * 16, ["DEL", "pos:only"]), ("x" * 15 + "\x7f", ["DEL", "pos:end"]), ("x" * 16 + "\n", ["ctrl-ws", "pos:end"])]
+    pool += [(t, [k]) for t, k in PLAIN_TITLES]
+    out = []
+    for i, (t, labels) in enumerate(pool):
+        paths = TITLE_PATHS[:3] + [TITLE_PATHS[3 + (i + seed) % 3]] if quick else TITLE_PATHS
+        for field, via in paths:
+            c = minimal()
+            c["family"], c["labels"] = "title-focus", labels + ["via:" + ("associate-" if field == "called" else "") + via]
+            c[field] = t
+            c["called_via" if field == "called" else "rq_title_via"] = via
+            out.append(c)
+    # both titles at once (the requestor's own and the one it calls)
+    for i, (t, labels) in enumerate(pool):
+        if quick and (i + seed) % 4:
+            continue
+        c = minimal()
+        c["family"], c["labels"] = "title-focus", labels + ["via:both"]
+        c["rq_title"], c["rq_title_via"], c["called"], c["called_via"] = t, "setter", pool[(i * 7 + seed) % len(pool)][0], "arg"
+        out.append(c)
+    # implementation version name (1..16 characters, same setter family): ServiceUser/AE.implementation_version_name
+    versions = [("", "empty"), (" ", "only-spaces"), (" " * 16, "only-spaces"), ("x" * 16, "len16"), ("x" * 17, "len17"), ("V 1", "legal"), (" V1 ", "padded"),
+                ("V1\n", "ctrl-ws"), ("\tV1", "ctrl-ws"), ("V\x001", "ctrl"), ("V1\x7f", "DEL"), ("\x7f", "DEL"), ("V\\1", "backslash"), ("V\u00c41", "non-ascii"), ("PYNETDICOM_300", "legal")]
+    for v, k in versions:
+        c = minimal()
+        c["family"], c["labels"], c["impl_version"] = "version-focus", [k], v
+        out.append(c)
+    return out
 
 
 def run(ctx):
@@ -109,7 +183,47 @@ def run(ctx):
         c[which] = t
         return c
 
+    @st.composite
+    def preset(draw):
+        """contexts= argument whose PresentationContext objects already carry a context_id (as accepted_contexts / rejected_contexts /
+        requested_contexts of an earlier association do); everything else known-good"""
+        c = minimal()
+        n = draw(st.integers(2, 6))
+        c["requested"] = [[draw(st.sampled_from(N.ABSTRACT_POOL)), [draw(st.sampled_from(N.TS_POOL[:3]))]] for _ in range(n)]
+        c["supported"] = [[ab, list(N.TS_POOL[:2]), None, None] for ab in draw(st.lists(st.sampled_from(N.ABSTRACT_POOL), min_size=1, max_size=5, unique=True))]
+        mode = draw(st.sampled_from(["reuse-gap", "reuse-gap", "random-odd", "random-odd", "dup", "all-same", "high", "reordered", "invalid"]))
+        odd_small = st.integers(0, n + 1).map(lambda k: 2 * k + 1)
+        if mode == "reuse-gap":
+            # accepted contexts of an earlier association (increasing IDs with gaps) followed by new contexts without an ID
+            k = draw(st.integers(1, n - 1))
+            ids = sorted(draw(st.lists(st.integers(0, n + 2).map(lambda k: 2 * k + 1), min_size=k, max_size=k, unique=True))) + [None] * (n - k)
+            if draw(st.booleans()):
+                ids = ids[k:] + ids[:k]  # new ones first
+        elif mode == "random-odd":
+            ids = [draw(st.one_of(st.none(), odd_small)) for _ in range(n)]
+        elif mode == "dup":
+            ids = [draw(odd_small) for _ in range(n)]
+            ids[draw(st.integers(1, n - 1))] = ids[0]
+        elif mode == "all-same":
+            ids = [draw(st.sampled_from([1, 3, 255]))] * n
+        elif mode == "high":
+            ids = [draw(st.sampled_from([None, 251, 253, 255, 255])) for _ in range(n)]
+        elif mode == "reordered":
+            ids = draw(st.permutations([2 * i + 1 for i in range(n)]))
+        else:
+            ids = [draw(st.sampled_from([None, 1, 3, 0, 2, 4, 256, 257, -1])) for _ in range(n)]
+        c["preset_ids"] = list(ids)
+        c["family"], c["labels"] = "preset-ids", [mode]
+        return c
+
+    def fam(strategy, name):
+        return strategy.map(lambda c: {**c, "family": name})
+
+    focus = title_focus_cases(ctx.seed, ctx.quick)
+    ctx.each("wire", focus[ctx.shard :: ctx.nshards])
+    ctx.extra["title_focus_cases"] = len(focus)
+    ctx.hyp("wire-preset", preset(), 60 if ctx.quick else 250)
     ctx.hyp("wire", base, 150 if ctx.quick else 1000)
-    ctx.hyp("wire", titles(), 60 if ctx.quick else 400)
-    ctx.hyp("wire", big(), 12 if ctx.quick else 100)
-    ctx.hyp("wire", odd(), 60 if ctx.quick else 400)
+    ctx.hyp("wire-titles", fam(titles(), "titles"), 60 if ctx.quick else 400)
+    ctx.hyp("wire-big", fam(big(), "big"), 12 if ctx.quick else 100)
+    ctx.hyp("wire-odd", fam(odd(), "odd"), 60 if ctx.quick else 400)
